@@ -3,15 +3,15 @@
 import json, sys
 
 CLAIMED = {
- "C01": ("SPEC differential", "4", "generated (path AST, document) pairs; library result compared with the independent SPEC interpreter: exact sequence/multiplicity/order, error iff SPEC selects nothing"),
+ "C01": ("SPEC differential", "4", "generated (path AST, document) pairs; library result compared with the independent SPEC interpreter: exact sequence/multiplicity/order, error iff SPEC selects nothing; cases reach the library through Parse or Retrieve, with or without a Config, 1 in 4 after a twin path differing by one character; the document is given new content in place and evaluated again"),
  "C02": ("validity predicate over generated/mutated/enumerated strings", "4", "about 1e6 generated strings per quick run (grammar-derived, mutated, token soup, Unicode, invalid UTF-8, boundary integers) plus the completely enumerated reduced grammar, under 4 configs: Parse returns exactly one of (function, nil) / (nil, documented syntax-check error), never panics, dies or hangs"),
  "C03": ("validity predicate + SPEC cross-check over generated (path, document) pairs", "4", "every accepted path of the C02 generators evaluated on generated documents (directed, free, empty, null/scalar roots; both decodings; failing user functions): result is (non-empty, nil) or (nil, documented runtime error), ErrorFunctionFailed only after a user function failed, and 'SPEC selects nothing' <=> error"),
- "C04": ("invariant (type-exact snapshot + storage headers) over generated cases; shared-document scenario under the race detector", "4", "document snapshot (values, dynamic types, slice headers, map identities) before vs after every generated retrieval, success or failure, accessor mode on/off; plus goroutines evaluating filter-heavy paths on one shared document under -race, where a write that is later undone shows up as a data race"),
+ "C04": ("invariant (type-exact snapshot + storage headers) over generated cases; shared-document scenario under the race detector", "4", "document snapshot (values, dynamic types, slice headers, map identities) before vs after every generated retrieval, success or failure, accessor mode on/off; plus goroutines evaluating filter-heavy paths on one shared document under -race, where a write that is later undone shows up as a data race; result slices are handed back as source documents; function names no Config registers are appended"),
  "C05": ("stateful history testing against fresh Retrieve and SPEC", "4", "drawn call histories (<=8/16 ops) on one parsed function over documents that flip filter verdicts, interleaved with unrelated Parse/Retrieve, scribbling on earlier results and forced GC; each call equals a fresh Retrieve and SPEC, earlier results stay intact and never share storage"),
- "C06": ("generated concurrent scenarios under the Go race detector + sequential-equivalence oracle", "4", "2..16 goroutines mixing Parse, Retrieve and calls of shared parsed functions (first calls happen concurrently) on shared documents; race detector with halt_on_error, every result compared with the same operation run alone, documents compared with snapshots"),
- "C07": ("metamorphic (physical map layout, repetition) + SPEC order oracle", "4", "each path evaluated 3..10 times on 3..6 physically different but equal Go maps (insertion order, pre-sizing, insert-then-delete), interleaved with other evaluations; every sequence must equal SPEC's (byte-wise key order cross-checked against encoding/json)"),
+ "C06": ("generated concurrent scenarios under the Go race detector + sequential-equivalence oracle", "4", "2..16 goroutines mixing Parse, Retrieve and calls of shared parsed functions (first calls happen concurrently) on shared documents; race detector with halt_on_error, every result compared with the same operation run alone, documents compared with snapshots; Config objects shared by the goroutines (functions / a copy with accessor mode / accessor only) with a per-call accessor-kind check; focused (1..3 paths) and churn scenarios"),
+ "C07": ("metamorphic (physical map layout, repetition) + SPEC order oracle", "4", "each path evaluated 3..10 times on 3..6 physically different but equal Go maps (insertion order, pre-sizing, insert-then-delete), interleaved with other evaluations; every sequence must equal SPEC's (byte-wise key order cross-checked against encoding/json); the order of user-function calls is compared across repetitions and copies; the sequence is also taken in accessor mode"),
  "C08": ("metamorphic relation over three retrievals (split composition)", "4", "every admissible split of every generated path: Retrieve(P.Q,d) equals the in-order concatenation of Retrieve($.Q,v) over Retrieve(P,d); union/multi decomposition and '..X' pre-order expansion checked at the split"),
- "C09": ("metamorphic Boolean-algebra laws over selection index sets", "4", "at every node of generated filter expressions (depth 3) over containers of 0..6 distinct members: and=intersection, or=union, parentheses neutral, !=complement, != vs ==, mirror laws for six operators, <=/>= = strict u equal; container order"),
+ "C09": ("metamorphic Boolean-algebra laws over selection index sets + shared-filter scenario under the race detector", "4", "at every node of generated filter expressions (depth 3) over containers of 0..6 distinct members: and=intersection, or=union, parentheses neutral, !=complement, != vs ==, mirror laws for six operators, <=/>= = strict u equal; container order; plus one parsed filter shared by goroutines on containers with different verdict patterns under the race detector (TestC09_SharedFilter); sub-expressions also through config-less Retrieve, sibling atoms that differ by a significant blank"),
  "C10": ("SPEC differential + metamorphic (decode mode, operand order)", "4", "single-comparison filters over members of every JSON type: per-member agreement with SPEC, identical selection with and without UseNumber, identical selection after swapping operands and mirroring the operator"),
  "C11": ("exhaustive small scope + random boundary search against a CPython-pinned slice model", "4", "all start/end/step in {omitted} U [-7..7] x lengths 0..6 enumerated completely, plus the boundary-magnitude cross product and random int64 triples up to length 40, compared with Python slice semantics"),
  "C12": ("relational (mode parity) over generated cases with recording functions", "4", "each generated (path, document) evaluated with and without accessor mode: same length, Get() deep-equals the plain value, same error, identical function call logs, never an Accessor inside a function argument"),
@@ -19,10 +19,10 @@ CLAIMED = {
  "C14": ("SPEC call-log differential with recording functions", "4", "per function occurrence, the recorded arguments (count, order, values; list vs array-elements for aggregates) are compared with SPEC's expected call log; results must be the chained return values; ErrorFunctionFailed when only functions failed"),
  "C15": ("SPEC failure-candidate differential", "4", "for every generated failing (path, document): the reported error (Go type, path text, expected, found) must match a failure SPEC finds at the deepest failing step, non-type failures preferred; exact for single-valued paths"),
  "C18": ("metamorphic (spelling variants) guarded by PEGI", "4", "each generated AST rendered in 2..6 random spellings of the kinds the grammar declares insignificant (each verified derivable by PEGI); all spellings must return deep-equal values or errors of the same type for the same step"),
- "C19": ("stateful history testing against fresh-process baselines", "4", "drawn histories of Parse calls over a pool of 312 (path, config) descriptors that fail at every grammar action or succeed, incl. modifying a Config after Parse; each outcome (error text or behaviour on probe documents) must equal the descriptor's outcome as the first call of a fresh process"),
- "C20": ("SPEC differential on documents with injected non-JSON values", "4", "generated documents with leaves/sub-containers replaced by 22 kinds of non-JSON Go values; results (by identity), function arguments and errors (ErrorTypeUnmatched naming the Go type) compared with SPEC's opaque-leaf rule; no panic"),
- "C16": ("model-based (Go map lookup) over generated keys and spellings", "4", "generated keys (all planes, symbols, control characters, escape look-alikes) among near-miss siblings, addressed through every spelling (single/double quotes x 3 escape styles, lone-surrogate escape, dot form) in 9 positions; each must return exactly the map's value; absent near-miss keys must give ErrorMemberNotExist"),
- "C17": ("differential against PEGI, an interpreter of jsonpath.peg", "4", "Parse's accept/reject decision, error type, character position and near text compared with an independent interpreter executing the published grammar file plus the documented restrictions, on generated/mutated strings and the enumerated reduced grammar"),
+ "C19": ("stateful history testing against fresh-process baselines + long-run revisits against SPEC", "4", "drawn histories of Parse calls over a pool of 312 (path, config) descriptors that fail at every grammar action or succeed, incl. modifying a Config after Parse; each outcome (error text or behaviour on probe documents) must equal the descriptor's outcome as the first call of a fresh process; plus TestC19_LongRun: thousands of distinct config-less paths per process (Parse and Retrieve), each compared with SPEC, remembered ones evaluated again after 70..4200 further distinct paths; replays carry the history"),
+ "C20": ("SPEC differential on documents with injected non-JSON values", "4", "generated documents with leaves/sub-containers replaced by 22 kinds of non-JSON Go values; results (by identity), function arguments and errors (ErrorTypeUnmatched naming the Go type) compared with SPEC's opaque-leaf rule; no panic; wrappers (pointer, Accessor, json.RawMessage) around sub-documents; accessor-mode evaluation against SPEC"),
+ "C16": ("model-based (Go map lookup) over generated keys and spellings", "4", "generated keys (all planes, symbols, control characters, escape look-alikes) among near-miss siblings, addressed through every spelling (single/double quotes x 3 escape styles, lone-surrogate escape, dot form) in 9 positions; each must return exactly the map's value; absent near-miss keys must give ErrorMemberNotExist; plus pairs of paths with equal 32-bit FNV-1a / FNV-1 / Adler-32 hashes from a birthday search, evaluated A, B, A through Parse and Retrieve (TestC16_Collide)"),
+ "C17": ("differential against PEGI, an interpreter of jsonpath.peg", "4", "Parse's accept/reject decision, error type, character position and near text compared with an independent interpreter executing the published grammar file plus the documented restrictions, on generated/mutated strings and the enumerated reduced grammar; every string is parsed twice and must get the same verdict"),
 }
 PENDING = {}
 for i in range(1, 21):
